@@ -193,7 +193,7 @@ Section LOSSLESS.
       rewrite (window_units en w (slice U m q)) by (apply units_slice; apply HU).
       pose proof (decode_step w tgt pol mark text m out q Hs HC Hqm) as DS. cbn zeta in DS. fold U in DS.
       set (r := core_decode w tgt pol mark (slice U m q) out) in *.
-      destruct DS as [D1 [D2 [D3 [D4 D5]]]].
+      destruct DS as [D1 [D2 [D3 [D4 [D5 _]]]]].
       assert (Hp : exists p, r_pos r * u = p /\ p = u * r_pos r /\ p <= a).
       { exists (r_pos r * u). repeat split; nia. }
       destruct Hp as [p [Ep [Ep' Hpa]]]. rewrite Ep.
@@ -293,7 +293,8 @@ Section LOSSLESS.
         pose proof Hu1. unfold U in H. rewrite Et in H.
         change (encs w (c :: rest)) with (enc w c ++ encs w rest) in H. rewrite app_length in H.
         pose proof (enc_len_pos w c). nia.
-      + revert Hnd. rewrite Et. intros Hnd'. apply detect_nobom_prefix; try assumption; lia.
+      + revert Hnd. rewrite Et. intros Hnd'. apply detect_nobom_prefix; try assumption; try lia.
+        pose proof (unit_size_le4 (utf_width e)). lia.
   Qed.
 
   Theorem esr_lossless sk fuel : length data < fuel ->
